@@ -5,10 +5,20 @@
 // Scheduler::schedule tasks of that iteration — exactly the "main-context op, then one loop
 // pass" step of the model (lean/TboxModel/C18/Model.lean, `step`).
 // Output format matches lean/Driver/C18.lean.
+// Round 4: every case runs in a child process of its own (the parent only dispatches), so that the calls that end the
+// process - a member reserved for routines called from the main context (`main <op>`), Scheduler::cleanup() inside a
+// routine (`K`), an exception that leaves a routine body (`t`) - are observed for real: the SIGABRT handler answers the
+// current and every remaining line of the case with `P aborted`, as the model does.  `main <op>` calls a primitive from the
+// main context (the wake-up paths an event callback uses), `semw` drives one private Semaphore at the int boundaries,
+// `stack <KiB>` varies the routine stack size, and every script step re-checks getToken()/getName()/getLoop().
 #include "vh.h"
 #include <unistd.h>
 #include <signal.h>
 #include <sys/resource.h>
+#include <sys/wait.h>
+#include <sys/time.h>
+#include <stdexcept>
+#include <cstring>
 #include <memory>
 #include <tbox/event/loop.h>
 #include <tbox/event/fd_event.h>
@@ -42,7 +52,9 @@ struct World {
     std::vector<RoutineToken> toks;
     std::vector<RInfo> info;
     bool in_cleanup = false;
-    explicit World(Loop *l) : sch(l) {
+    size_t stack = kStack;
+    Loop *loop;
+    explicit World(Loop *l) : sch(l), loop(l) {
         for (size_t i = 0; i < kPrims; ++i) {
             ch.emplace_back(new Channel<int>(sch));
             mx.emplace_back(new Mutex(sch));
@@ -54,16 +66,39 @@ struct World {
 };
 
 static World *W = nullptr;
-static std::vector<World*> graveyard;   // schedulers stay alive: the loop still holds schedule() tasks bound to them
 static bool mute = false;
+
+// ---- one case = one child process.  abort() (a failed TBOX_ASSERT of the debug build the harness compiles, or
+// std::terminate for an exception that leaves a routine body) ends the case: the handler answers the line being
+// processed and every remaining line of the case with `P aborted`, exactly as the model does, and exits 0.
+static std::vector<std::string> g_lines;
+static size_t g_pos = 0;            // next line to read
+static bool g_pending = false;      // a line has been executed and its summary is still owed
+static void on_abort(int) {
+    if (!mute && g_pending) {
+        std::cout << "P aborted\n";
+        for (size_t i = g_pos; i < g_lines.size(); ++i)
+            if (!vh::words(g_lines[i]).empty()) std::cout << "P aborted\n";
+    }
+    std::cout.flush();
+    _exit(0);
+}
 
 static RoutineToken tok_of(uint64_t r) { return r < W->toks.size() ? W->toks[r] : RoutineToken(); }
 
 static bool create_routine(World *w, size_t d, bool now);
 
 // runs inside the routine
-static void interpret(World *w, size_t self, std::shared_ptr<Script> sc, Scheduler &sch) {
+// Scheduler::getToken / getName / getLoop inside a routine: the token create() returned for this routine, the name it was
+// created with, the loop the scheduler was built on (checked before and after every script operation; silent when right)
+static void identity(World *w, size_t self, const std::string &name, Scheduler &sch) {
+    if (!sch.getToken().equal(w->toks[self]) || sch.getName() != name || sch.getLoop() != w->loop)
+        std::cout << "P identity-mismatch r=" << self << "\n";
+}
+
+static void interpret(World *w, size_t self, std::shared_ptr<Script> sc, const std::string &name, Scheduler &sch) {
     w->info[self].begun = true;
+    identity(w, self, name, sch);
     for (const SOp &o : sc->ops) {
         std::string res = "ok";
         bool failed = false;
@@ -91,7 +126,10 @@ static void interpret(World *w, size_t self, std::shared_ptr<Script> sc, Schedul
                 break;
             case 'x': fail_if(sch.cancel(o.a < w->toks.size() ? w->toks[o.a] : RoutineToken())); break;
             case 'e': w->info[self].finished = true; return;
+            case 't': throw std::runtime_error("C18 script: exception leaves the routine body");
+            case 'K': w->sch.cleanup(); break;      // only the main context may: TBOX_ASSERT(isInMainRoutine())
         }
+        identity(w, self, name, sch);
         w->info[self].done++;
         if (!mute)
             std::cout << "P e r=" << self << " " << o.text << " " << res << " c=" << (sch.isCanceled() ? 1 : 0) << "\n";
@@ -105,7 +143,8 @@ static bool create_routine(World *w, size_t d, bool now) {
     std::shared_ptr<Script> sc = w->defs[d];
     w->info.emplace_back();
     w->toks.push_back(RoutineToken());
-    RoutineToken t = w->sch.create([w, idx, sc](Scheduler &s) { interpret(w, idx, sc, s); }, now, "r", kStack);
+    std::string name = "d" + std::to_string(d);
+    RoutineToken t = w->sch.create([w, idx, sc, name](Scheduler &s) { interpret(w, idx, sc, name, s); }, now, name, w->stack);
     if (t.isNull()) {   // refused: no routine exists, the index is not used
         w->info.pop_back(); w->toks.pop_back();
         return false;
@@ -122,7 +161,7 @@ static bool parse_sop(const std::string &t, SOp &o, size_t ndefs) {
     // canonical text (numbers without leading zeros), as the model prints it
     std::string k(1, o.kind);
     switch (o.kind) {
-        case 'y': case 'w': case 'e': o.text = k; break;
+        case 'y': case 'w': case 'e': case 't': case 'K': o.text = k; break;
         case 's': o.text = k + std::to_string(o.a) + ":" + std::to_string(o.b); break;
         case 'c': o.text = k + std::string(1, o.sub) + std::to_string(o.a) + (o.sub == 'w' ? "" : ":" + std::to_string(o.b)); break;
         default: o.text = k + std::to_string(o.a);
@@ -139,7 +178,7 @@ static bool parse_sop1(const std::string &t, SOp &o, size_t ndefs) {
         return p != std::string::npos && num(r.substr(0, p), o.a, kPrims) && num(r.substr(p + 1), o.b, 1000);
     };
     switch (o.kind) {
-        case 'y': case 'w': case 'e': return rest.empty();
+        case 'y': case 'w': case 'e': case 't': case 'K': return rest.empty();
         case 's': return two(rest);
         case 'r': case 'l': case 'u': case 'a': case 'v': case 'p': case 'b': return num(rest, o.a, kPrims);
         case 'c':
@@ -176,6 +215,8 @@ static std::string summary() {
     }
     s += " ch=";
     for (size_t i = 0; i < kPrims; ++i) s += W->ch[i]->empty() ? "1" : "0";
+    s += " cz=";
+    for (size_t i = 0; i < kPrims; ++i) s += W->ch[i]->size() ? "1" : "0";
     s += " sm=";
     for (size_t i = 0; i < kPrims; ++i) s += W->sm[i]->count() ? "1" : "0";
     return s;
@@ -187,53 +228,91 @@ static void do_cleanup() {
     W->in_cleanup = false;
 }
 
-static void new_world(Loop *loop) {
-    if (W) {
-        mute = true; do_cleanup(); mute = false;
-        graveyard.push_back(W);
+// a primitive / scheduler member called from the MAIN context (outside every routine)
+static void main_call(const SOp &o) {
+    std::string res = "ok";
+    auto b = [&](bool ok) { if (!ok) res = "fail"; };
+    switch (o.kind) {
+        case 'y': W->sch.yield(); break;
+        case 'w': W->sch.wait(); break;
+        case 's': *W->ch[o.a] << (int)o.b; break;
+        case 'r': { int v = -1; bool ok = (*W->ch[o.a] >> v); if (ok) res = "v" + std::to_string(v); else res = "fail"; } break;
+        case 'l': b(W->mx[o.a]->lock()); break;
+        case 'u': W->mx[o.a]->unlock(); break;
+        case 'a': b(W->sm[o.a]->acquire()); break;
+        case 'v': W->sm[o.a]->release(); break;
+        case 'p': W->bc[o.a]->post(); break;
+        case 'b': b(W->bc[o.a]->wait()); break;
+        case 'c':
+            if (o.sub == 'a') W->cd[o.a]->add((int)o.b);
+            else if (o.sub == 'w') b(W->cd[o.a]->wait());
+            else W->cd[o.a]->post((int)o.b);
+            break;
+        case 'j': b(W->sch.join(tok_of(o.a))); break;
     }
-    W = new World(loop);
+    std::cout << "P e r=main " << o.text << " " << res << " c=0\n";
+}
+
+// `semw <init> <a|v...>`: one private Semaphore(sch, init) on a private loop, used by one routine (width / sign of count_)
+static void semw(long long init, const std::string &ops) {
+    Loop *l2 = Loop::New("epoll");
+    std::string res;
+    Scheduler *sch2 = new Scheduler(l2);
+    Semaphore *sem = new Semaphore(*sch2, (int)init);
+    sch2->create([&res, sem, ops](Scheduler &) {
+        for (char c : ops) {
+            if (c == 'a') { res += 'B'; if (!sem->acquire()) return; res.back() = 'g'; }     // 'B' stays when acquire() blocks
+            else { sem->release(); res += 'r'; }
+        }
+    }, true, "semw", kStack);
+    l2->runLoop(Loop::Mode::kOnce);
+    bool nz = sem->count();
+    sch2->cleanup();        // a blocked acquire() returns false
+    std::cout << "P semw " << res << " nz=" << (nz ? 1 : 0) << "\n";
 }
 
 // watchdog: a lost "cancel makes every blocking call return" turns cleanup() into an endless loop that
 // also grows the waiter queues; the case is then reported as CRASH exit:96 instead of eating the machine
-static unsigned kCaseSeconds = 2;   // C18_WATCHDOG overrides (the valgrind run uses a longer one)
+// The limit is CPU time of the case's process (ITIMER_PROF): an endless cleanup() spins, and a loaded machine must not
+// turn a healthy case into a timeout; a generous wall-clock alarm stays as a backstop for a sleeping hang.
+static unsigned kCaseSeconds = 4;   // C18_WATCHDOG overrides (the valgrind run uses a longer one)
 static void on_alarm(int) { static const char m[] = "C18 harness watchdog: case did not finish\n"; (void)!write(2, m, sizeof(m) - 1); _exit(96); }
 
-int main() {
-    struct rlimit rl = { 3ull << 30, 3ull << 30 };
-    setrlimit(RLIMIT_AS, &rl);
-    if (const char *e = getenv("C18_WATCHDOG")) { int v = atoi(e); if (v > 0) kCaseSeconds = (unsigned)v; }
+static void run_case(const std::string &header) {
     signal(SIGALRM, on_alarm);
-    alarm(kCaseSeconds);
-    LogOutput_Disable();
-    std::ios::sync_with_stdio(false);
+    signal(SIGPROF, on_alarm);
+    signal(SIGABRT, on_abort);
+    struct itimerval itv; memset(&itv, 0, sizeof(itv)); itv.it_value.tv_sec = kCaseSeconds;
+    setitimer(ITIMER_PROF, &itv, nullptr);
+    alarm(kCaseSeconds * 60);
+    std::cout << header << "\n";
+    std::cout.flush();      // a crash of this child must be attributed to this case
     Loop *loop = Loop::New("epoll");
     int pfd[2];
-    if (pipe(pfd) != 0) return 2;
-    if (write(pfd[1], "x", 1) != 1) return 2;      // never read: the fd stays readable, one callback per loop iteration
+    if (pipe(pfd) != 0) _exit(2);
+    if (write(pfd[1], "x", 1) != 1) _exit(2);      // never read: the fd stays readable, one callback per loop iteration
     FdEvent *ev = loop->newFdEvent("verif-driver");
     ev->initialize(pfd[0], FdEvent::kReadEvent, Event::Mode::kPersist);
-    new_world(loop);
-    bool pending = false;
+    W = new World(loop);
     ev->setCallback([&](short) {
-        if (pending) { std::cout << summary() << "\n"; pending = false; }
-        std::string line;
+        if (g_pending) { std::cout << summary() << "\n"; g_pending = false; }
         for (;;) {
-            if (!std::getline(std::cin, line)) {
-                mute = true; do_cleanup(); mute = false;
+            if (g_pos >= g_lines.size()) {
+                // end of the case: cleanup() must terminate from every final state (watchdog); nothing is printed
+                mute = true; do_cleanup();
                 ev->disable();
                 loop->exitLoop();
                 return;
             }
+            const std::string &line = g_lines[g_pos++];
             auto w = vh::words(line);
             if (w.empty()) continue;
-            if (w[0] == "case") { std::cout.flush(); alarm(kCaseSeconds); new_world(loop); std::cout << line << "\n"; std::cout.flush(); continue; }
             uint64_t a, b;
+            g_pending = true;       // from here on an abort() belongs to this line
             if (w[0] == "def" && w.size() == 3 && num(w[1], a, 2)) {
                 auto sc = std::make_shared<Script>();
                 sc->xfail = a == 1;
-                if (W->defs.size() >= 32 || !parse_script(w[2], *sc, W->defs.size())) { std::cout << "bad-op\n"; continue; }
+                if (W->defs.size() >= 32 || !parse_script(w[2], *sc, W->defs.size())) { std::cout << "bad-op\n"; g_pending = false; continue; }
                 W->defs.push_back(sc);
             } else if (w[0] == "new" && w.size() == 3 && num(w[1], a, W->defs.size()) && num(w[2], b, 2)) {
                 create_routine(W, a, b == 1);
@@ -244,13 +323,53 @@ int main() {
             } else if (w[0] == "cleanup" && w.size() == 1) {
                 do_cleanup();
             } else if (w[0] == "pass" && w.size() == 1) {
-            } else { std::cout << "bad-op\n"; continue; }
-            pending = true;     // the loop now runs the queued schedule() tasks; the summary follows
-            return;
+            } else if (w[0] == "stack" && w.size() == 2 && num(w[1], a, 1025) && (a == 64 || a == 128 || a == 256 || a == 1024)) {
+                W->stack = (size_t)a * 1024;
+            } else if (w[0] == "semw" && w.size() == 3) {
+                const std::string &t = w[1];
+                std::string ds = t.size() && t[0] == '-' ? t.substr(1) : t;
+                bool ok = !ds.empty() && ds.size() <= 10 && ds.find_first_not_of("0123456789") == std::string::npos &&
+                          !(ds.size() > 1 && ds[0] == '0') && !(t[0] == '-' && ds == "0") &&
+                          !w[2].empty() && w[2].size() <= 64 && w[2].find_first_not_of("av") == std::string::npos;
+                long long v = ok ? atoll(t.c_str()) : 0;
+                if (!ok || v < -2147483648LL || v > 2147483647LL) { std::cout << "bad-op\n"; g_pending = false; continue; }
+                semw(v, w[2]);
+            } else if (w[0] == "main" && w.size() == 2) {
+                SOp o;
+                if (!parse_sop(w[1], o, W->defs.size()) || !strchr("ywsrluavpbcj", o.kind)) { std::cout << "bad-op\n"; g_pending = false; continue; }
+                main_call(o);
+            } else { std::cout << "bad-op\n"; g_pending = false; continue; }
+            return;     // the loop now runs the queued schedule() tasks; the summary follows
         }
     });
     ev->enable();
     loop->runLoop(Loop::Mode::kForever);
     std::cout.flush();
-    _exit(0);       // worlds are leaked on purpose (see graveyard)
+    _exit(0);       // the world is leaked on purpose: the loop still holds schedule() tasks bound to the scheduler
+}
+
+int main() {
+    struct rlimit rl = { 3ull << 30, 3ull << 30 };
+    setrlimit(RLIMIT_AS, &rl);
+    if (const char *e = getenv("C18_WATCHDOG")) { int v = atoi(e); if (v > 0) kCaseSeconds = (unsigned)v; }
+    LogOutput_Disable();
+    std::ios::sync_with_stdio(false);
+    // the parent only dispatches: it reads the whole op file and runs every case in a child of its own
+    std::vector<std::pair<std::string, std::vector<std::string>>> cases;
+    std::string line;
+    while (std::getline(std::cin, line)) {
+        auto w = vh::words(line);
+        if (!w.empty() && w[0] == "case") cases.emplace_back(line, std::vector<std::string>());
+        else if (!cases.empty()) cases.back().second.push_back(line);
+    }
+    for (auto &c : cases) {
+        pid_t pid = fork();
+        if (pid < 0) return 3;
+        if (pid == 0) { g_lines = c.second; g_pos = 0; run_case(c.first); }
+        int st = 0;
+        if (waitpid(pid, &st, 0) != pid) return 3;
+        if (WIFSIGNALED(st)) { signal(WTERMSIG(st), SIG_DFL); raise(WTERMSIG(st)); return 4; }
+        if (!WIFEXITED(st) || WEXITSTATUS(st) != 0) return WIFEXITED(st) ? WEXITSTATUS(st) : 4;
+    }
+    return 0;
 }
